@@ -42,7 +42,36 @@ C19_PARTS = [
      "trace": {"module": "TraceTrackLabels.tla", "consts": {"T": "3", "K": "2", "PX": "2"}}},
 ]
 
+C18_PARTS = [
+    {"name": "points", "driver": "cand_points",
+     "design": {"module": "CandGraph.tla", "invariants": ["Inv_Edges"],
+                "consts": {"quick": {"T": "4", "D": "2", "Fixes": tlc.tla_set(["F14"])},
+                           "thorough": {"T": "5", "D": "2", "Fixes": tlc.tla_set(["F14"])}}},
+     "args": {"quick": {"T": 4, "D": 2, "shuffle": True}, "thorough": {"T": 5, "D": 2, "shuffle": True}},
+     "trace": {"module": "TraceCandGraph.tla",
+               "consts": {"quick": {"T": "4", "D": "2", "Fixes": tlc.tla_set(["F14"])},
+                          "thorough": {"T": "5", "D": "2", "Fixes": tlc.tla_set(["F14"])}}}},
+    {"name": "points_d5", "driver": "cand_points",
+     "design": {"module": "CandGraph.tla", "invariants": ["Inv_Edges"],
+                "consts": {"T": "4", "D": "5", "Fixes": tlc.tla_set(["F14"])}},
+     "args": {"T": 4, "D": 5, "scales": [[1, 1], [2, 1]]},
+     "trace": {"module": "TraceCandGraph.tla", "consts": {"T": "4", "D": "5", "Fixes": tlc.tla_set(["F14"])}}},
+    {"name": "points_d3", "driver": "cand_points", "tiers": ("thorough",),
+     "design": {"module": "CandGraph.tla", "invariants": ["Inv_Edges"],
+                "consts": {"T": "4", "D": "3", "Fixes": tlc.tla_set(["F14"])}},
+     "args": {"T": 4, "D": 3},
+     "trace": {"module": "TraceCandGraph.tla", "consts": {"T": "4", "D": "3", "Fixes": tlc.tla_set(["F14"])}}},
+    {"name": "seg", "driver": "cand_seg",
+     "args": {"quick": {"T": 3, "PX": 3, "variants": [[1, 1], [2, 2]]},
+              "thorough": {"T": 3, "PX": 3, "variants": [[1, 1], [2, 1], [1, 2], [2, 2], [3, 2]]}},
+     "trace": {"module": "TraceCandSeg.tla", "consts": {"T": "3", "PX": "3"}}},
+]
+
 PROPS = {
+    "C18": (C18_PARTS,
+            "point lists: every non-empty subset of {frames} x {3 grid positions} (all frame gaps), distances incl. the boundary cases "
+            "d=2 and the 3-4-5 triangle; label arrays: all 3-frame 1x3 arrays with 2 labels per frame; non-trivial = input with a frame gap / output with edges",
+            ["positions on a 3-point integer grid; unit or small integer scales", "labels unique across frames (documented precondition)"]),
     "C19": (C19_PARTS,
             "label arrays: all arrays of the universe (every frame content incl. empty frames, repeated labels); non-trivial = "
             "input with a label occurring in two frames / solution with at least one edge",
